@@ -511,6 +511,11 @@ class Project(MessageHandler):
                     self.warning("task_end_before_start", f"Task {task.fullId} is pinned to end before it starts")
                     invalid_tasks.append(task)
                     continue
+                if is_explicit_milestone and start and end and end != start:
+                    # A milestone has no length: two different dates contradict each other
+                    self.warning("milestone_with_length", f"Milestone {task.fullId} is pinned to two different dates")
+                    invalid_tasks.append(task)
+                    continue
                 horizon_start = self.attributes.get("start")
                 horizon_end = self.attributes.get("end")
                 if horizon_start and horizon_end and any(
